@@ -4,7 +4,7 @@
 say about a converged density -- symmetric, trace = number of electrons, idempotent, commuting with F, reproduced by re-diagonalisation, the same whichever solver
 path produced it, independent of batch mates and of zero padding -- presupposes that this map returns, for every molecule of a batch,
 
-        P = 2 * sum_{i < nocc} c_i c_i^T        (restricted; 1 * ... per spin channel when unrestricted)
+        P = 2 * sum_{i < nocc} c_i c_i^T        (restricted; the same with the channel's own occupation per spin channel when unrestricted -- the drivers halve it)
 
 with c_i the eigenvectors of *that molecule's own* real orbital block, in the padded ("unpacked") layout, and nothing on padding orbitals.  The factory's closure (pack ->
 padding shift -> eigensolver / SP2 purification -> aufbau occupation -> unpack) is interpreted from its syntax tree by sa.npsym on designed Fock matrices whose exact
@@ -56,14 +56,15 @@ def _orth(n, seed):
 
 class Mol:
     """one molecule of a designed batch: nheavy heavy atoms (4 orbitals each) followed by nhydro hydrogens (1 orbital each), `lam` the eigenvalues of its real block"""
-    def __init__(self, nheavy, nhydro, lam, seed):
+    def __init__(self, nheavy, nhydro, lam, seed, simple=False):
         import numpy as np
         import sympy as sp
         self.nheavy, self.nhydro = nheavy, nhydro
         self.norb = 4 * nheavy + nhydro
         assert len(lam) == self.norb
         self.lam = [sp.sympify(x) for x in lam]
-        self.Q = _orth(self.norb, seed)
+        # `simple`: one rotation between the first and the last orbital (small denominators: the purification arm squares its matrices exactly, digits double per pass)
+        self.Q = _givens(self.norb, 0, self.norb - 1, sp.Rational(3, 5), sp.Rational(4, 5)) if simple else _orth(self.norb, seed)
         D = np.empty((self.norb, self.norb), dtype=object)
         D[:] = sp.Integer(0)
         for i, x in enumerate(self.lam):
@@ -94,13 +95,13 @@ class Mol:
         return P * sp.Integer(factor)
 
 
-def _batches():
+def _batches(simple=False):
     import sympy as sp
     R = sp.Rational
-    A = Mol(1, 1, [-12, -9, -2, 1, 5], 0)
-    A2 = Mol(1, 1, [-20, -3, -1, 4, 9], 2)
-    B = Mol(0, 2, [1, 3], 1)                       # only positive orbital energies: an unshifted padding orbital (eigenvalue 0) would be occupied first
-    H5 = Mol(0, 5, [-7, -4, R(1, 2), 2, 6], 3)     # five hydrogens: as many orbitals as heavy+H, different layout
+    A = Mol(1, 1, [-12, -9, -2, 1, 5], 0, simple)
+    A2 = Mol(1, 1, [-20, -3, -1, 4, 9], 2, simple)
+    B = Mol(0, 2, [1, 3], 1, simple)               # only positive orbital energies: an unshifted padding orbital (eigenvalue 0) would be occupied first
+    H5 = Mol(0, 5, [-7, -4, R(1, 2), 2, 6], 3, simple)     # five hydrogens: as many orbitals as heavy+H, different layout
     return [
         ("zero-padded heterogeneous batch (5 and 2 orbitals, positive orbital energies next to padding)", 2, [A, B], [2, 1], [(2, 1), (1, 1)]),
         ("homogeneous batch with different occupations (fast path of pack / unpack)", 2, [A, A2], [2, 3], [(2, 1), (3, 2)]),
@@ -122,16 +123,17 @@ def interpreted_density_builder(repo, arms=None):
     all_arms = [
         ("diagonalisation", dict(sp2=[False, R(1, 10 ** 5)], backward=False, openshell=False), 0),
         ("diagonalisation, unrolled (backward=True)", dict(sp2=[False, R(1, 10 ** 5)], backward=True, openshell=False), 0),
-        ("SP2 purification", dict(sp2=[True, R(1, 10 ** 5)], backward=False, openshell=False), R(5, 10 ** 4)),
+        ("SP2 purification", dict(sp2=[True, R(1, 10 ** 3)], backward=False, openshell=False), R(2, 100)),
         ("diagonalisation, unrestricted", dict(sp2=[False, R(1, 10 ** 5)], backward=False, openshell=True), 0),
         ("diagonalisation, unrestricted, unrolled (backward=True)", dict(sp2=[False, R(1, 10 ** 5)], backward=True, openshell=True), 0),
     ]
     for arm, cfg, tol in all_arms:
-        if arms and arm not in arms:
-            continue
-        for what, molsize, mols, nocc, nocc_u in _batches():
+        if (arms and arm not in arms) or (not arms and cfg["sp2"][0]):
+            continue        # (the purification arm squares exact rational matrices, digits double per pass: only on request)
+        for what, molsize, mols, nocc, nocc_u in _batches(simple=bool(cfg["sp2"][0])):
             I = NpSym(repo, stubs={"print": lambda *a, **k: None})
             I.warnings = []
+            I.eigh_known = [(mo.C, mo.lam, mo.Q) for mo in mols] + [(mo.C * R(3, 2) + _eye(mo.norb) * R(1, 7), [x * R(3, 2) + R(1, 7) for x in mo.lam], mo.Q) for mo in mols]
             size = 4 * molsize
             uhf = cfg["openshell"]
             if uhf:
@@ -140,7 +142,7 @@ def interpreted_density_builder(repo, arms=None):
                 Fb = [mo.unpacked(mo.C * R(3, 2) + _eye(mo.norb) * R(1, 7), size) for mo in mols]
                 F = np.stack([np.stack([a, b]) for a, b in zip(Fa, Fb)])
                 occ = I.arr(np.array(nocc_u, dtype=np.int64))
-                exp = np.stack([np.stack([mo.unpacked(mo.projector(na, 1), size), mo.unpacked(mo.projector(nb, 1), size)]) for mo, (na, nb) in zip(mols, nocc_u)])
+                exp = np.stack([np.stack([mo.unpacked(mo.projector(na, 2), size), mo.unpacked(mo.projector(nb, 2), size)]) for mo, (na, nb) in zip(mols, nocc_u)])   # the factory returns 2 C C^T per spin channel; the drivers halve it (C04-R1)
             else:
                 F = np.stack([mo.unpacked(mo.C, size) for mo in mols])
                 occ = I.arr(np.array(nocc, dtype=np.int64))
@@ -161,7 +163,7 @@ def interpreted_density_builder(repo, arms=None):
                 continue
             worst, where = 0, None
             for idx in np.ndindex(*exp.shape):
-                d = sp.nsimplify(sp.sympify(P[idx]) - exp[idx])
+                d = sp.sympify(P[idx]) - exp[idx]
                 if not d.is_number:
                     raise AnalysisError(f"density builder ({arm}): symbolic entry in the result")
                 d = abs(d)
@@ -173,7 +175,7 @@ def interpreted_density_builder(repo, arms=None):
                 tr = sum(sp.sympify(P[(k,) + ((where[1],) if uhf else ()) + (i, i)]) for i in range(size))
                 padded = [i for i in range(size) if i not in {mo.u(c) for c in range(mo.norb)}]
                 on_pad = max([abs(sp.sympify(P[(k,) + ((where[1],) if uhf else ()) + (i, i)])) for i in padded] or [0])
-                want = (nocc_u[k][where[1]] if uhf else 2 * nocc[k])
+                want = (2 * nocc_u[k][where[1]] if uhf else 2 * nocc[k])
                 msg = (f"{arm}: for the {what}, molecule {k}" + (f" spin channel {where[1]}" if uhf else "") +
                        f" does not get the aufbau projector of its own Fock block (largest deviation {float(worst):.3g} at element {where[-2:]}; trace {float(tr):.4g} instead of {want}; "
                        f"largest population on a padding orbital {float(on_pad):.3g}): the density handed to the SCF drivers is not the one that diagonalises this molecule's Fock matrix")
@@ -191,3 +193,16 @@ def _eye(n):
     for i in range(n):
         E[i, i] = sp.Integer(1)
     return E
+
+
+def check_density_builders(ctx, rid):
+    """rule wrapper: one obligation per (arm, batch); returns True when every arm was interpreted and holds"""
+    scf = ctx.repo.mod(SCF)
+    f = scf.func("make_Pnew_factory")
+    allok = True
+    for arm, what, ok, msg in interpreted_density_builder(ctx.repo):
+        allok = allok and ok
+        ctx.check(ok, rid, scf, f, "make_Pnew_factory", f"{arm}: {what}",
+                  f"{arm}, {what}: every molecule (and spin channel) gets 2 x the projector on the lowest nocc eigenvectors of its own Fock block, nothing on padding orbitals "
+                  f"(exact, interpreted) [EA+]", msg)
+    return allok
